@@ -1051,15 +1051,20 @@ def real_run(coro: Any, cpu_limit: float, wall_limit: float) -> Any:
     loop = asyncio.new_event_loop()
     armed = threading.current_thread() is threading.main_thread()
     old_handler = None
+    fired = [0]
     if armed:
         def on_timer(signum: int, frame: Any) -> None:
+            fired[0] += 1
             raise vtime.Spinning()
 
         old_handler = signal.signal(signal.SIGVTALRM, on_timer)
-        signal.setitimer(signal.ITIMER_VIRTUAL, cpu_limit)
+        signal.setitimer(signal.ITIMER_VIRTUAL, cpu_limit, 0.5)  # repeating, see vtime.run
     try:
         asyncio.set_event_loop(loop)
-        return loop.run_until_complete(asyncio.wait_for(coro, wall_limit))
+        res = loop.run_until_complete(asyncio.wait_for(coro, wall_limit))
+        if fired[0]:
+            raise vtime.Spinning()
+        return res
     finally:
         if armed:
             signal.setitimer(signal.ITIMER_VIRTUAL, 0)
@@ -1100,20 +1105,32 @@ def summarise(gens: list[dict[str, Any]]) -> Any:
     return [{**g, "msgs": f"{len(g['msgs'])} messages, lengths {[len(m) for m in g['msgs']][:12]}"} for g in gens]
 
 
+class StopShard(Exception):
+    """raised by Mon.run after repeated Spinning verdicts (the violations are recorded; more cases would only burn the budget)"""
+
+
 class Mon:
     def __init__(self, ctx: Any):
         self.ctx = ctx
         self.served_off: set[str] = set()
         self.served_n = 0
+        self.cpu = 45.0  # CPU seconds one operation may burn without reaching a suspension point
+        self.spins = 0
 
     def run(self, coro: Any, w: dict[str, Any], what: str) -> Any:
         try:
-            return vtime.run(coro, cpu_limit=45.0)
+            return vtime.run(coro, cpu_limit=self.cpu)
         except vtime.Deadlock:
             self.ctx.violation(f"{what}/blocks-forever", "operation can never complete (nothing scheduled, nothing readable)", w)
             return None
         except vtime.Spinning:
             self.ctx.violation(f"{what}/spins-without-yielding", "the operation burns CPU without ever reaching a suspension point (no timeout of the caller can end it)", w)
+            # every such verdict costs its CPU limit: once the verdict exists the limit drops, and after a dozen the shard stops adding cases
+            # (a shard that sits in spinning operations until the runner's watchdog would end as 'inconclusive' instead of 'violated')
+            self.spins += 1
+            self.cpu = 6.0
+            if self.spins >= 12:
+                raise StopShard from None
             return None
 
     def check_read(self, kind: str, msgs: list[bytes], cuts: list[int], gap: float, eof_at: int | None) -> None:
@@ -1612,6 +1629,13 @@ def run(ctx: Any, params: dict[str, Any]) -> None:
     rng5 = random.Random(f"C19-groups/{ctx.seed}/{ctx.shard_index}")  # own stream: the cases of the older families stay what they were
     rng7 = random.Random(f"C19-round7/{ctx.seed}/{ctx.shard_index}")  # round 7 dimensions, again on their own stream
     mon = Mon(ctx)
+    try:
+        run_cases(ctx, params, mon, rng, rng5, rng7)
+    except StopShard:
+        ctx.reach("stopped-after-repeated-spinning-verdicts")
+
+
+def run_cases(ctx: Any, params: dict[str, Any], mon: Any, rng: Any, rng5: Any, rng7: Any) -> None:
     for i in range(params["n"]):
         kind = ("tcp-lines", "unix-lines")[i % 2]
         # short base sequence: exhaustive single splits, timeouts at every prefix, EOF at every offset
